@@ -778,6 +778,24 @@ func runC11Flatten(cs C11Case, x *kit.Ctx) {
 		x.Fail("c11:flatten-generate", "GenerateIndex on the finished file failed: %v", err)
 		return
 	}
+	// the same regeneration over a forward-only stream, delivered whole and one byte per Read
+	for _, sk := range []string{"plain", "onebyte"} {
+		var src io.Reader = drv.PlainReader{R: bytes.NewReader(res.Bytes)}
+		if sk == "onebyte" {
+			src = iotest.OneByteReader(bytes.NewReader(res.Bytes))
+		}
+		gs, err := carv2.GenerateIndex(src, o.List()...)
+		if err != nil {
+			x.Fail("c11:flatten-generate:"+sk, "GenerateIndex over a %s stream of the finished file failed: %v", sk, err)
+			continue
+		}
+		var a, b bytes.Buffer
+		if _, e1 := index.WriteTo(gen, &a); e1 == nil {
+			if _, e2 := index.WriteTo(gs, &b); e2 != nil || !sameIndexBytes(a.Bytes(), b.Bytes(), true) {
+				x.Fail("c11:flatten-generate:"+sk, "the index regenerated from a %s stream differs from the one regenerated from a seekable source (err %v)", sk, e2)
+			}
+		}
+	}
 	var gb bytes.Buffer
 	if _, err := index.WriteTo(gen, &gb); err != nil {
 		x.Fail("c11:flatten-generate", "WriteTo failed: %v", err)
